@@ -321,7 +321,12 @@ class FuncDef:
 def find_function_def(clean, qualname, select=None):
     """Locate `Ret Class::name(params) [const] [: init-list] { body }` in comment-stripped, pp-evaluated
     text.  `select` is an optional regex that must match the parameter text (to pick an overload)."""
-    pat = re.compile(r'\b' + re.escape(qualname) + r'\s*(?:<\s*\w+\s*>)?\s*\(')
+    if '::' in qualname:
+        qc, qn = qualname.split('::', 1)
+        # the class may be a template:  PolygonAreaT<GeodType>::transit
+        pat = re.compile(r'\b' + re.escape(qc) + r'\s*(?:<\s*\w+\s*>)?\s*::\s*' + re.escape(qn) + r'\s*(?:<\s*\w+\s*>)?\s*\(')
+    else:
+        pat = re.compile(r'\b' + re.escape(qualname) + r'\s*(?:<\s*\w+\s*>)?\s*\(')
     cands = []
     for m in pat.finditer(clean):
         po = m.end() - 1
